@@ -228,10 +228,147 @@ fn os_rng(rep: &mut Report) {
     }
 }
 
+// ---------------------------------------------------------------------------------------------
+// Keys on which the signing loop runs to its iteration limit (an accepted private key with extreme t0):
+// whatever the implementation does at that point, a failing generator still has to surface as Err and
+// randomness is still requested through try_fill_bytes only.
+
+#[derive(Clone, Debug, Hash, Serialize, Deserialize)]
+pub struct ExCase {
+    pub set: u8,
+    /// 2 pure, 3..5 hash-sign (numbering of `entry_name`)
+    pub entry: u8,
+    pub script: [Fault; 3],
+}
+
+fn exhausting_key(p: &rf::Params) -> Vec<u8> {
+    use crate::gen::{Pattern, Seed32, SkSpec};
+    gen::build_sk(p, &SkSpec::Fields { rho: Seed32::Uniform(1), key: Seed32::Zero, tr_seed: 5, s1: Pattern::Random(6), s2: Pattern::AllZero, t0: Pattern::RandomExtreme(1), consistent: false }).sk
+}
+
+pub fn check_exhausting(c: &ExCase, st: &mut Stats) -> CheckResult {
+    let libr = libs()[c.set as usize % 3];
+    let p = libr.p();
+    let name = entry_name(c.entry);
+    let tag = format!("set{}:{name}:long_loop_key", p.id);
+    let sk = match g_sk(libr, &exhausting_key(&p))? {
+        Ok(k) => k,
+        Err(_) => return Ok(()), // judged by C10
+    };
+    let data = gen::prg_bytes(u64::from(c.set) * 31 + u64::from(c.entry), "c12-ex", 96);
+    let mut rng = TestRng::with_faults(&data, c.script.to_vec(), true);
+    let mode = MODES[(c.entry - 2) as usize % 4];
+    st.eval();
+    st.nontrivial(c);
+    let t = std::time::Instant::now();
+    let outcome = guarded(|| sk.sign(&mut rng, b"long loop", &[1, 2, 3], mode));
+    st.maximum(&format!("sign_ms_set{}", p.id), t.elapsed().as_millis() as i64);
+    let any_fault_hit = rng.log.iter().any(|r| r.via == "try_fill_bytes" && !r.ok);
+    st.class(&format!("requests={}", rng.requests()));
+    match outcome {
+        Err(pi) => {
+            if pi.msg.contains("TestRng: infallible") {
+                fail!(format!("infallible_rng_interface_used:{tag}"), "{tag}: the library called an infallible RNG method ({}) while signing with a key whose loop does not accept; randomness must be requested through try_fill_bytes only", pi.msg);
+            }
+            Err(Fail::panic(name, &pi))
+        }
+        Ok(res) => {
+            st.class(if res.is_ok() { "returned Ok" } else { "returned Err" });
+            if any_fault_hit && res.is_ok() {
+                fail!(format!("rng_failure_ignored:{tag}"), "{tag}: the RNG reported failure (script {:?}, requests {:?}) but the call returned Ok", c.script, rng.log.iter().map(|r| (r.len, r.ok)).collect::<Vec<_>>());
+            }
+            if res.is_ok() && rng.delivered > 32 {
+                fail!(format!("drew_more_than_32:{tag}"), "{tag}: {} bytes were drawn from the caller's generator (requests {:?}); FIPS 204 signing consumes one 32-byte rnd", rng.delivered, rng.log.iter().map(|r| (r.len, r.ok)).collect::<Vec<_>>());
+            }
+            Ok(())
+        }
+    }
+}
+
+fn exhausting_cases() -> Vec<ExCase> {
+    let mut v = Vec::new();
+    for set in 0..3u8 {
+        for entry in 2..6u8 {
+            for script in [[Fault::None; 3], [Fault::None, Fault::ErrBefore, Fault::None], [Fault::None, Fault::ErrAfter(16), Fault::ErrBefore], [Fault::ErrBefore, Fault::None, Fault::None]] {
+                v.push(ExCase { set, entry, script });
+            }
+        }
+    }
+    v
+}
+
+/// What the OS-RNG entry points return as their FIRST results in a fresh process (one line per call).
+pub fn os_rng_probe_lines() -> Vec<String> {
+    use sha2::{Digest, Sha256};
+    let mut out = Vec::new();
+    for libr in libs() {
+        let p = libr.p();
+        let d = |b: &[u8]| hex::encode(Sha256::digest(b));
+        match guarded(|| libr.keygen_os()) {
+            Ok(Ok((pk, sk))) => out.push(format!("set={} try_keygen pk={} sk={}", p.id, d(&pk.to_bytes()), d(&sk.to_bytes()))),
+            Ok(Err(e)) => out.push(format!("set={} try_keygen Err({e})", p.id)),
+            Err(pi) => out.push(format!("set={} try_keygen panic {}", p.id, pi.key())),
+        }
+        if let Ok((_, sk)) = guarded(|| libr.keygen_from_seed(&[3u8; 32])) {
+            for mode in MODES {
+                match guarded(|| sk.sign_os(b"fresh", &[], mode)) {
+                    Ok(Ok(s)) => out.push(format!("set={} try_sign {} sig={}", p.id, mode.tag(), d(&s))),
+                    Ok(Err(e)) => out.push(format!("set={} try_sign {} Err({e})", p.id, mode.tag())),
+                    Err(pi) => out.push(format!("set={} try_sign {} panic {}", p.id, mode.tag(), pi.key())),
+                }
+            }
+        }
+    }
+    out
+}
+
+/// Fresh processes: the first OS-RNG results of three separately started processes must all differ
+/// (a generator whose output is a function of a per-process counter passes every in-process test).
+fn os_rng_across_processes(rep: &mut Report) {
+    let sub = "os_rng_fresh_processes";
+    let exe = match std::env::current_exe() {
+        Ok(e) => e,
+        Err(e) => {
+            rep.note(format!("{sub}: cannot locate own executable ({e}); skipped"));
+            return;
+        }
+    };
+    let mut runs: Vec<Vec<String>> = Vec::new();
+    for _ in 0..3 {
+        match std::process::Command::new(&exe).arg("osrng-probe").output() {
+            Ok(o) if o.status.success() => runs.push(String::from_utf8_lossy(&o.stdout).lines().map(str::to_string).collect()),
+            other => {
+                rep.note(format!("{sub}: probe process failed ({other:?}); skipped"));
+                return;
+            }
+        }
+    }
+    let st = rep.stats(sub);
+    st.evals(runs.iter().map(|r| r.len() as u64).sum());
+    st.nontrivial_enumerated += runs[0].len() as u64;
+    st.sample("probe", || json!(runs[0].iter().take(3).collect::<Vec<_>>()));
+    let mut fails = Vec::new();
+    for (li, line) in runs[0].iter().enumerate() {
+        let same = runs[1..].iter().filter(|r| r.get(li) == Some(line)).count();
+        if line.contains("Err(") || line.contains("panic") {
+            continue; // judged by os_rng_freshness
+        }
+        if same > 0 {
+            let what: String = line.split(' ').filter(|w| w.starts_with("set=") || !w.contains('=')).collect::<Vec<_>>().join(" ");
+            fails.push((what.clone(), format!("{what}: the first result in a fresh process is identical in {} of 3 separately started processes (the OS-RNG entry point does not use fresh OS randomness)", same + 1)));
+        }
+    }
+    for (k, w) in fails {
+        if !rep.violations.iter().any(|v| v.sub == sub) {
+            rep.violation(sub, Fail::new(format!("os_rng_repeats_across_processes:{}", k.replace(' ', ":")), w), json!({"probe": "vcheck osrng-probe, three processes"}));
+        }
+    }
+}
+
 pub fn run(ctx: &Ctx, rep: &mut Report) {
     rep.assume(ASSUME_REF);
     rep.assume("oracle on failure: if any request the library actually made was scripted to fail, the call must return Err without panicking; how many requests are made and of what size is recorded, not judged");
-    rep.assume("OS-RNG freshness is judged by pairwise inequality of 8 results (collision probability 2^-256 with a working OS RNG)");
+    rep.assume("OS-RNG freshness is judged by pairwise inequality of 8 results in one process and of the first results of 3 separately started processes (collision probability 2^-256 with a working OS RNG)");
     // complete enumeration of the fault space
     let ncodes = crate::libapi::ERR_CODES.len();
     let n = (3 * ENTRIES * 216 * 2 * ncodes) as u64;
@@ -272,11 +409,14 @@ pub fn run(ctx: &Ctx, rep: &mut Report) {
         v
     });
     os_rng(rep);
+    os_rng_across_processes(rep);
+    crate::engine::run_list(rep, "long_loop_key", &exhausting_cases(), check_exhausting);
 }
 
 pub fn replay(ctx: &Ctx, sub: &str, case: &Value) -> Option<CheckResult> {
     match sub {
         "fault_scripts" => Some(check(&from_case::<Case>(case), &mut Stats::default())),
+        "long_loop_key" => Some(check_exhausting(&from_case::<ExCase>(case), &mut Stats::default())),
         "bit_influence" => {
             let seed = case["seed"].as_u64().unwrap_or(ctx.seed);
             let mut v = case.clone();
